@@ -103,6 +103,46 @@ inline int max_matching(const std::vector<std::vector<int>> &cols, int m, std::v
     return size;
 }
 
+// Rank over the prime field Z_p, p = 998244353 (p = 1 mod 4, so sqrt(-1) exists and complex entries map to
+// a + b*i).  Every double is m*2^e exactly, so the map is exact; rank_p <= true rank, hence every exactly
+// singular matrix has rank_p < n (used only to route generators around known finding F-SS, never as an oracle).
+inline uint64_t modpow(uint64_t b, uint64_t e, uint64_t p) { uint64_t r = 1; b %= p; while (e) { if (e & 1) r = (unsigned __int128)r * b % p; b = (unsigned __int128)b * b % p; e >>= 1; } return r; }
+inline uint64_t double_mod_p(double v, uint64_t p)
+{
+    if (v == 0 || !std::isfinite(v)) return 0;
+    int e; double f = std::frexp(std::fabs(v), &e);        // |v| = f * 2^e, f in [0.5,1)
+    uint64_t m = (uint64_t)std::ldexp(f, 53); e -= 53;       // |v| = m * 2^e, m integer
+    uint64_t r = m % p;
+    uint64_t two = e >= 0 ? modpow(2, (uint64_t)e, p) : modpow(modpow(2, p - 2, p), (uint64_t)(-e), p);
+    r = (unsigned __int128)r * two % p;
+    return v < 0 ? (p - r) % p : r;
+}
+inline int rank_mod_p(const GMat &A)
+{
+    const uint64_t p = 998244353ULL;
+    static const uint64_t im = modpow(3, (p - 1) / 4, p);    // sqrt(-1) mod p (3 is a primitive root)
+    int m = A.m, n = A.n;
+    std::vector<std::vector<uint64_t>> M(m, std::vector<uint64_t>(n, 0));
+    for (int j = 0; j < n; ++j) for (auto &e : A.col[j]) {
+        uint64_t v = (double_mod_p(e.second.re, p) + (unsigned __int128)double_mod_p(e.second.im, p) * im % p) % p;
+        M[e.first][j] = (M[e.first][j] + v) % p;
+    }
+    int rank = 0; std::vector<char> used(m, 0);
+    for (int j = 0; j < n; ++j) {
+        int pr = -1; for (int i = 0; i < m; ++i) if (!used[i] && M[i][j]) { pr = i; break; }
+        if (pr < 0) continue;
+        used[pr] = 1; ++rank;
+        uint64_t inv = modpow(M[pr][j], p - 2, p);
+        for (int i = 0; i < m; ++i) if (!used[i] && M[i][j]) {
+            uint64_t f = (unsigned __int128)M[i][j] * inv % p;
+            for (int k = j; k < n; ++k) M[i][k] = (M[i][k] + p - (unsigned __int128)f * M[pr][k] % p) % p;
+        }
+    }
+    return rank;
+}
+// True for every matrix that is exactly singular (and, with probability ~1e-9, for a nonsingular one).
+inline bool maybe_exactly_singular(const GMat &A) { return rank_mod_p(A) < std::min(A.m, A.n); }
+
 inline int struct_rank(const GMat &A)
 {
     std::vector<std::vector<int>> cols(A.n);
